@@ -41,6 +41,16 @@ Proof.
   induction x as [|a x IH]; intros [|b y] H; cbn in H; try discriminate; [reflexivity|].
   apply andb_true_iff in H. destruct H as [H1 H2]. f_equal; [apply tt_eqb_eq; exact H1|apply IH; exact H2].
 Qed.
+Lemma tt_eqb_refl : forall a, tt_eqb a a = true.
+Proof.
+  induction a as [s|p|l|d ts IH] using tt_ind2; cbn.
+  - apply String.eqb_refl.
+  - apply Nat.eqb_refl.
+  - destruct l; cbn; [apply Nat.eqb_refl|apply String.eqb_refl].
+  - rewrite Nat.eqb_refl. cbn. induction IH as [|x xs Hx Hxs IHxs]; [reflexivity|]. rewrite Hx. exact IHxs.
+Qed.
+Lemma tts_eqb_refl : forall x, tts_eqb x x = true.
+Proof. induction x as [|a x IH]; [reflexivity|]. cbn. rewrite tt_eqb_refl. exact IH. Qed.
 Lemma tts_eqb_neq x y : x <> y -> tts_eqb x y = false.
 Proof. intros H. destruct (tts_eqb x y) eqn:E; [exfalso; apply H, tts_eqb_eq; exact E|reflexivity]. Qed.
 
@@ -290,7 +300,8 @@ Definition wf_where (fuel: nat) (w: gwhere) : Prop :=
   gw_bounds w <> [] /\ Forall (wf_ty fuel) (gw_bounds w).
 
 Lemma ng_where fuel w R : wf_where fuel w -> wstop R ->
-  exists g, next_generic fuel (lex_where w ++ R) = Ok (Some g) R /\ to_where g = Some (exp_where w) /\ gkey g = lex (gw_ty w).
+  exists g, next_generic fuel (lex_where w ++ R) = Ok (Some g) R /\ to_where g = Some (exp_where w) /\ gkey g = lex (gw_ty w) /\
+            (forall n, gw_ty w = GPath n [] [] -> g = GnType [TId n] None (map embed (gw_bounds w))).
 Proof.
   intros (Hb & [Wt Dt] & Hc & Hne & Wb) HR. unfold lex_where. rewrite <- app_assoc. cbn [app].
   set (Y := sep_plus (map lex (gw_bounds w)) ++ R).
@@ -301,7 +312,7 @@ Proof.
   destruct (gw_ty w) as [s0 segs args|lt t|l tr|t len|a|] eqn:E; try discriminate.
   - (* a path: the Ident branch, later turned into a where bound *)
     exists (GnType (lex (GPath s0 segs args)) None (map embed (gw_bounds w))).
-    split; [|split; [unfold exp_where; rewrite E; reflexivity|reflexivity]].
+    split; [|split; [unfold exp_where; rewrite E; reflexivity|split; [reflexivity|intros n [= -> -> ->]; reflexivity]]].
     change (lex (GPath s0 segs args) ++ TP PColon :: Y) with (TId s0 :: (colons segs ++ match args with [] => [] | _ => TP PLt :: sep_comma (map lex args) ++ [TP PGt] end) ++ TP PColon :: Y) in *.
     cbn [next_generic]. rewrite Hc. change (TId s0 :: (colons segs ++ match args with [] => [] | _ => TP PLt :: sep_comma (map lex args) ++ [TP PGt] end) ++ TP PColon :: Y) with (lex (GPath s0 segs args) ++ TP PColon :: Y) in *.
     rewrite NT. cbn [expect bind]. subst Y. rewrite bounds_loop_ok; [|exact Hne|exact Len|exact Wb|apply wstop_stop; exact HR|apply wstop_noplus; exact HR].
@@ -309,14 +320,14 @@ Proof.
     destruct R as [|[s|[]|l|[] ts] r]; cbn in HR; try contradiction; reflexivity.
   - (* a tuple: the Group branch *)
     exists (GnWhere (lex (GTuple l tr)) (map embed (gw_bounds w))).
-    split; [|split; [unfold exp_where; rewrite E; reflexivity|reflexivity]].
+    split; [|split; [unfold exp_where; rewrite E; reflexivity|split; [reflexivity|intros n; discriminate]]].
     change (lex (GTuple l tr) ++ TP PColon :: Y) with (TG Paren (sep_comma (map lex l) ++ (if tr then [TP PComma] else [])) :: TP PColon :: Y) in *.
     cbn [next_generic]. change (TG Paren (sep_comma (map lex l) ++ (if tr then [TP PComma] else [])) :: TP PColon :: Y) with (lex (GTuple l tr) ++ TP PColon :: Y) in *.
     rewrite NT. cbn [expect bind]. subst Y. rewrite bounds_while_ok; [|exact Hne|exact Len|exact Wb|apply wstop_stop; exact HR|apply wstop_noplus; exact HR].
     cbn [bind app]. rewrite (print_embed _ Wt). reflexivity.
   - (* an array *)
     exists (GnWhere (lex (GArray t len)) (map embed (gw_bounds w))).
-    split; [|split; [unfold exp_where; rewrite E; reflexivity|reflexivity]].
+    split; [|split; [unfold exp_where; rewrite E; reflexivity|split; [reflexivity|intros n; discriminate]]].
     assert (exists inner, lex (GArray t len) = [TG Bracket inner]) as [inner Ei] by (destruct len as [[n|s]|]; eexists; reflexivity).
     rewrite Ei in *. cbn [app next_generic] in *.
     rewrite NT. cbn [expect bind]. subst Y. rewrite bounds_while_ok; [|exact Hne|exact Len|exact Wb|apply wstop_stop; exact HR|apply wstop_noplus; exact HR].
@@ -346,6 +357,12 @@ Proof.
   - rewrite <- app_assoc. exact H.
 Qed.
 
+Lemma NoDup_snoc {A} (l: list A) x : NoDup l -> ~ In x l -> NoDup (l ++ [x]).
+Proof.
+  induction l as [|a l IH]; intros ND H; [constructor; [intros []|constructor]|]. inversion ND as [|? ? Hn Hr]; subst. cbn. constructor.
+  - intros Hin. apply in_app_or in Hin. destruct Hin as [Hin|[<-|[]]]; [apply Hn; exact Hin|apply H; left; reflexivity].
+  - apply IH; [exact Hr|intros Hin; apply H; right; exact Hin].
+Qed.
 Lemma NoDup_app_l {A} (l1 l2: list A) : NoDup (l1 ++ l2) -> NoDup l1.
 Proof.
   induction l1 as [|a l1 IH]; intros H; [constructor|]. inversion H as [|? ? Hn Hr]; subst. constructor.
@@ -369,37 +386,110 @@ Proof.
       * rewrite map_app. cbn [map]. rewrite gkey_exp_param. exact ND'.
 Qed.
 
-Lemma loop2_ok fuel : forall ws k ret tr body R, List.length ws < k -> Forall (wf_where fuel) ws -> (tr = true -> ws <> []) ->
-  NoDup (map gkey ret ++ map (fun w => lex (gw_ty w)) ws) ->
-  generics_loop2 fuel k ret (sep_comma (map lex_where ws) ++ trail tr ++ TG Brace body :: R) = Ok (ret ++ map exp_where ws) (TG Brace body :: R).
+(* a where item either brings a new name, or names an existing TYPE parameter (whose bounds it extends) *)
+Fixpoint where_ok (ret: list generic) (ws: list gwhere) : Prop :=
+  match ws with
+  | [] => True
+  | w :: r => (~ In (lex (gw_ty w)) (map gkey ret) \/ (exists n d b, gw_ty w = GPath n [] [] /\ In (GnType [TId n] d b) ret)) /\ where_ok (exp_merge ret w) r
+  end.
+
+Lemma has_gkey_false ret k : ~ In k (map gkey ret) -> has_gkey ret k = false.
 Proof.
-  induction ws as [|w ws IH]; intros k ret tr body R Hk W Htr ND; (destruct k as [|k]; [cbn in Hk; lia|]).
-  - destruct tr; [exfalso; apply Htr; reflexivity|]. cbn. rewrite app_nil_r. reflexivity.
-  - inversion W as [|? ? Ww Wr]; subst. cbn [map] in ND. destruct (NoDup_app_head _ _ _ ND) as [Hfresh ND'].
+  unfold has_gkey. induction ret as [|x r IH]; intros H; [reflexivity|]. cbn [existsb].
+  rewrite tts_eqb_neq by (intros E; apply H; left; exact E). apply IH. intros Hin. apply H. right. exact Hin.
+Qed.
+Lemma has_gkey_true ret k : In k (map gkey ret) -> has_gkey ret k = true.
+Proof.
+  unfold has_gkey. intros H. apply existsb_exists. apply in_map_iff in H. destruct H as (g & <- & Hg). exists g. split; [exact Hg|apply tts_eqb_refl].
+Qed.
+
+Definition bump (k: list tt) (bs: list ty) (g: generic) : generic :=
+  match g with GnType k' d b => if tts_eqb k' k then GnType k' d (b ++ bs) else g | _ => g end.
+Lemma bump_key k bs g : gkey (bump k bs g) = gkey g.
+Proof. destruct g as [n t d|n d b|n b|n b]; cbn; try reflexivity. destruct (tts_eqb n k); reflexivity. Qed.
+Lemma bump_other k bs (r: list generic) : ~ In k (map gkey r) -> map (bump k bs) r = r.
+Proof.
+  induction r as [|x r IH]; intros H; [reflexivity|]. cbn [map]. rewrite IH by (intros Hin; apply H; right; exact Hin). f_equal.
+  destruct x as [n t d|n d b|n b|n b]; cbn; try reflexivity. rewrite tts_eqb_neq; [reflexivity|]. intros E. apply H. left. exact E.
+Qed.
+
+(* upsert on a name that belongs to a type parameter extends that parameter's bounds and nothing else *)
+Lemma upsert_type_merge : forall ret k d b bs d', NoDup (map gkey ret) -> In (GnType k d b) ret ->
+  upsert ret (GnType k d' bs) = Some (map (bump k bs) ret).
+Proof.
+  induction ret as [|x r IH]; intros k d b bs d' ND Hin; [contradiction|]. cbn [map] in ND. inversion ND as [|? ? Hn Hr]; subst.
+  cbn [upsert map gkey]. destruct Hin as [->|Hin].
+  - cbn [gkey]. rewrite tts_eqb_refl. cbn [merge option_map bump]. rewrite tts_eqb_refl. rewrite bump_other by exact Hn. reflexivity.
+  - assert (Hne: gkey x <> k).
+    { intros E. apply Hn. rewrite E. apply in_map_iff. exists (GnType k d b). split; [reflexivity|exact Hin]. }
+    rewrite (tts_eqb_neq _ _ Hne). rewrite (IH k d b bs d' Hr Hin). cbn [option_map]. f_equal. f_equal.
+    destruct x as [n t dd|n dd bb|n bb|n bb]; cbn; try reflexivity. cbn in Hne. rewrite (tts_eqb_neq _ _ Hne). reflexivity.
+Qed.
+
+Lemma exp_merge_keys_nodup ret w : NoDup (map gkey ret) ->
+  (~ In (lex (gw_ty w)) (map gkey ret) \/ (exists n d b, gw_ty w = GPath n [] [] /\ In (GnType [TId n] d b) ret)) -> NoDup (map gkey (exp_merge ret w)).
+Proof.
+  intros ND [Hf|(n & d & b & E & Hin)]; unfold exp_merge.
+  - rewrite has_gkey_false by exact Hf. rewrite map_app. cbn [map gkey exp_where]. apply NoDup_snoc; assumption.
+  - rewrite has_gkey_true by (rewrite E; apply in_map_iff; exists (GnType [TId n] d b); split; [reflexivity|exact Hin]).
+    rewrite map_map. rewrite (map_ext _ gkey); [exact ND|]. intros g. apply (bump_key (lex (gw_ty w)) (map embed (gw_bounds w)) g).
+Qed.
+
+Lemma loop2_step fuel w ret R : wf_where fuel w -> wstop R -> NoDup (map gkey ret) ->
+  (~ In (lex (gw_ty w)) (map gkey ret) \/ (exists n d b, gw_ty w = GPath n [] [] /\ In (GnType [TId n] d b) ret)) ->
+  exists g, next_generic fuel (lex_where w ++ R) = Ok (Some g) R /\
+            (if has_key ret g then upsert ret g else option_map (fun x => ret ++ [x]) (to_where g)) = Some (exp_merge ret w).
+Proof.
+  intros Ww HR ND Hc. destruct (ng_where fuel w R Ww HR) as (g & NG & TW & GK & GP). exists g. split; [exact NG|].
+  unfold exp_merge. destruct Hc as [Hf|(n & d & b & E & Hin)].
+  - rewrite has_key_fresh by (rewrite GK; exact Hf). rewrite has_gkey_false by exact Hf. rewrite TW. reflexivity.
+  - assert (Hk: In (lex (gw_ty w)) (map gkey ret)) by (rewrite E; apply in_map_iff; exists (GnType [TId n] d b); split; [reflexivity|exact Hin]).
+    rewrite has_gkey_true by exact Hk.
+    rewrite (GP n E) in *. 
+    assert (HK: has_key ret (GnType [TId n] None (map embed (gw_bounds w))) = true).
+    { unfold has_key. apply existsb_exists. exists (GnType [TId n] d b). split; [exact Hin|apply tts_eqb_refl]. }
+    rewrite HK. rewrite (upsert_type_merge ret [TId n] d b (map embed (gw_bounds w)) None ND Hin).
+    rewrite E. reflexivity.
+Qed.
+
+Lemma loop2_ok fuel : forall ws k ret tr body R, List.length ws < k -> Forall (wf_where fuel) ws -> (tr = true -> ws <> []) ->
+  NoDup (map gkey ret) -> where_ok ret ws ->
+  generics_loop2 fuel k ret (sep_comma (map lex_where ws) ++ trail tr ++ TG Brace body :: R) = Ok (fold_left exp_merge ws ret) (TG Brace body :: R).
+Proof.
+  induction ws as [|w ws IH]; intros k ret tr body R Hk W Htr ND WO; (destruct k as [|k]; [cbn in Hk; lia|]).
+  - destruct tr; [exfalso; apply Htr; reflexivity|]. cbn. reflexivity.
+  - inversion W as [|? ? Ww Wr]; subst. cbn [where_ok] in WO. destruct WO as [Hc WO']. cbn [fold_left].
+    pose proof (exp_merge_keys_nodup ret w ND Hc) as ND'.
     destruct ws as [|w2 r].
     + cbn [map sep_comma]. destruct tr; cbn [trail app].
-      * destruct (ng_where fuel w (TP PComma :: TG Brace body :: R) Ww I) as (g & NG & TW & GK).
-        cbn [generics_loop2]. rewrite NG. cbn [bind].
-        rewrite has_key_fresh by (rewrite GK; exact Hfresh). rewrite TW. cbn [option_map].
+      * destruct (loop2_step fuel w ret (TP PComma :: TG Brace body :: R) Ww I ND Hc) as (g & NG & UP).
+        cbn [generics_loop2]. rewrite NG. cbn [bind]. rewrite UP.
         destruct k; [cbn in Hk; lia|]. cbn. reflexivity.
-      * destruct (ng_where fuel w (TG Brace body :: R) Ww I) as (g & NG & TW & GK).
-        cbn [generics_loop2]. rewrite NG. cbn [bind].
-        rewrite has_key_fresh by (rewrite GK; exact Hfresh). rewrite TW. cbn [option_map]. reflexivity.
+      * destruct (loop2_step fuel w ret (TG Brace body :: R) Ww I ND Hc) as (g & NG & UP).
+        cbn [generics_loop2]. rewrite NG. cbn [bind]. rewrite UP. reflexivity.
     + rewrite sep_comma_two, <- !app_assoc. cbn [app].
-      destruct (ng_where fuel w (TP PComma :: sep_comma (map lex_where (w2 :: r)) ++ trail tr ++ TG Brace body :: R) Ww I) as (g & NG & TW & GK).
-      cbn [generics_loop2]. rewrite NG. cbn [bind].
-      rewrite has_key_fresh by (rewrite GK; exact Hfresh). rewrite TW. cbn [option_map].
-      rewrite (IH k (ret ++ [exp_where w]) tr body R); [|cbn in Hk |- *; lia|exact Wr|intros _; discriminate|].
-      * cbn [map]. rewrite <- app_assoc. reflexivity.
-      * rewrite map_app. cbn [map gkey exp_where]. exact ND'.
+      destruct (loop2_step fuel w ret (TP PComma :: sep_comma (map lex_where (w2 :: r)) ++ trail tr ++ TG Brace body :: R) Ww I ND Hc) as (g & NG & UP).
+      cbn [generics_loop2]. rewrite NG. cbn [bind]. rewrite UP.
+      apply (IH k (exp_merge ret w) tr body R); [cbn in Hk |- *; lia|exact Wr|intros _; discriminate|exact ND'|exact WO'].
+Qed.
+
+(* the simple sufficient condition: all names distinct *)
+Lemma where_ok_fresh : forall ws ret, NoDup (map gkey ret ++ map (fun w => lex (gw_ty w)) ws) -> where_ok ret ws /\ fold_left exp_merge ws ret = ret ++ map exp_where ws.
+Proof.
+  induction ws as [|w ws IH]; intros ret ND; [split; [exact I|rewrite app_nil_r; reflexivity]|].
+  cbn [map] in ND. destruct (NoDup_app_head _ _ _ ND) as [Hf ND']. cbn [where_ok fold_left].
+  assert (E: exp_merge ret w = ret ++ [exp_where w]) by (unfold exp_merge; rewrite has_gkey_false by exact Hf; reflexivity).
+  rewrite E. destruct (IH (ret ++ [exp_where w])) as [WO FL].
+  { rewrite map_app. cbn [map gkey exp_where]. exact ND'. }
+  split; [split; [left; exact Hf|exact WO]|]. rewrite FL, <- app_assoc. reflexivity.
 Qed.
 
 (* ---------- the generic parameter list with its where clause ---------- *)
 Definition wf_generics (fuel: nat) (og: option ggenerics) : Prop :=
   match og with
   | None => True
-  | Some gg => Forall (wf_param fuel) (gg_params gg) /\ NoDup (all_keys og) /\
-               match gg_where gg with None => True | Some (ws, tr) => Forall (wf_where fuel) ws /\ (tr = true -> ws <> []) end
+  | Some gg => Forall (wf_param fuel) (gg_params gg) /\ NoDup (map param_key (gg_params gg)) /\
+               match gg_where gg with None => True | Some (ws, tr) => Forall (wf_where fuel) ws /\ (tr = true -> ws <> []) /\ where_ok (map exp_param (gg_params gg)) ws end
   end.
 
 Section WithDedup.
@@ -412,14 +502,11 @@ Proof.
   intros W. destruct og as [gg|]; [|reflexivity].
   destruct W as (Wp & ND & Ww). unfold lex_generics, exp_generics. cbn [app get_all_bounds].
   rewrite <- app_assoc. cbn [app].
-  unfold all_keys in ND.
-  rewrite (loop1_ok fuel (gg_params gg) _ [] _); [| |exact Wp|].
+  rewrite (loop1_ok fuel (gg_params gg) _ [] _); [| |exact Wp|cbn [map app]; exact ND].
   2:{ rewrite app_length. pose proof (length_sep_comma_ge lex_param (gg_params gg) length_lex_param). lia. }
-  2:{ cbn [map app]. apply (NoDup_app_l _ _ ND). }
   cbn [bind app]. destruct (gg_where gg) as [[ws tr]|].
-  - destruct Ww as [Www Htr]. change ("where" =? "where") with true. cbn iota.
-    cbn [app]. change ("where" =? "where") with true. cbn iota. rewrite <- app_assoc. fold (trail tr).
-    rewrite (loop2_ok fuel ws _ (map exp_param (gg_params gg)) tr body R); [reflexivity| |exact Www|exact Htr|].
+  - destruct Ww as (Www & Htr & WO). cbn [app]. change ("where" =? "where") with true. cbn iota. rewrite <- app_assoc. fold (trail tr).
+    rewrite (loop2_ok fuel ws _ (map exp_param (gg_params gg)) tr body R); [reflexivity| |exact Www|exact Htr| |exact WO].
     + rewrite !app_length. pose proof (length_sep_comma_ge lex_where ws length_lex_where). lia.
     + rewrite map_map. rewrite (map_ext _ param_key gkey_exp_param). exact ND.
   - reflexivity.
